@@ -34,7 +34,11 @@ theorem flushF_one (st : ASt) : flushF 1 st = lift (flush st) := by
     | error e =>
       rcases place_error_id hp with rfl | rfl <;>
         simp [lift, idFile, idPos, ctxErrIdx, RDir.toDir, Nat.mod_one]
-    | ok c => rfl
+    | ok c =>
+      simp only
+      cases (if r.kind == Kind.Jsight then firstNotJsight st.done else none) with
+      | none => rfl
+      | some f => simp [lift, idFile, idPos, Nat.mod_one]
 
 /-- the lexeme is not an INCLUDE keyword -/
 def lexNoInc (d : Src) (l : Lexeme × Nat) : Prop :=
